@@ -14,6 +14,7 @@ import (
 	"strconv"
 	"strings"
 	"time"
+	"unicode/utf8"
 )
 
 type histEngine struct{}
@@ -383,6 +384,14 @@ func (c *stepCtx) judge() {
 			c.report("C05", "invalid-target-accepted", cmdSite, fmt.Sprintf("target %q is not a valid file but klog reported success", c.target))
 		}
 		out.stat("invalid_target_steps", 1)
+		return
+	}
+
+	if !utf8.ValidString(beforeT) {
+		// The format requires UTF-8. A file with invalid bytes (what a torn or failed write leaves when it
+		// cuts a multi-byte character) is accepted by klog but is not a valid file in the sense of C03, C04
+		// and C11 (klog drops the rest of a summary line after the invalid byte when it re-reads it).
+		out.stat("not_utf8_steps", 1)
 		return
 	}
 
